@@ -138,6 +138,8 @@ pub struct Interp {
     pub root: String,
     pub step: usize,
     pub own_nodes: Vec<String>,
+    /// the cleaner process has no node of its own: nodes of other live processes are none of its business
+    pub ignore_alive: bool,
 }
 
 fn svc_name(n: &str) -> ServiceName {
@@ -157,7 +159,7 @@ impl Interp {
     pub fn new(mark: bool) -> Interp {
         iceoryx2_log::set_log_level(iceoryx2_log::LogLevel::Fatal);
         let config = make_config();
-        Interp { config, slots: vec![], mark, root: env("C04_ROOT", ""), step: 0, own_nodes: vec![] }
+        Interp { config, slots: vec![], mark, root: env("C04_ROOT", ""), step: 0, own_nodes: vec![], ignore_alive: false }
     }
 
     fn idx(&self, name: &str) -> Option<usize> {
@@ -622,7 +624,7 @@ impl Interp {
                 say(&format!("C round {} states [{}]", rounds, line));
                 last = line.clone();
             }
-            if v.is_empty() {
+            if v.is_empty() || (self.ignore_alive && v.iter().all(|(_, s)| matches!(s, NodeState::Alive(_)))) {
                 break;
             }
             if rounds > 3 && t0.elapsed() > Duration::from_millis(1500) {
@@ -702,6 +704,7 @@ pub fn victim_main(scn: &str) {
 
 pub fn cleaner_main() {
     let mut it = Interp::new(true);
+    it.ignore_alive = true;
     it.exec("cleanup");
     it.marker("end");
     say("O end = ok");
